@@ -20,7 +20,7 @@ impl AppCounters {
     }
 
     pub(crate) fn update_count(&mut self, df: u32) {
-        *self.df_count.entry(df).or_insert(1) += 1;
+        *self.df_count.entry(df).or_insert(0) += 1;
     }
 
     pub(crate) fn reset_cleanup_count(&mut self) {
